@@ -221,13 +221,36 @@ def weave(unit_path, repo, verif_root, vacuity=False):
             p = os.path.join(verif_root, s[len("//@include "):].strip())
             chunks.append(Chunk(open(p).read(), {"kind": "include", "path": p}))
             i += 1
+        elif s.startswith("//@use "):
+            # //@use <unit> <obligation name> : import an extract block of another unit with its contract ASSUMED
+            # (external_body): the contract is proved in that unit, here it is a trusted callee contract
+            parts = s[len("//@use "):].split()
+            ounit, oname = parts[0], " ".join(parts[1:])
+            otext = open(os.path.join(verif_root, "units", ounit, "unit.vx")).read().split("\n")
+            k = None
+            for j, l in enumerate(otext):
+                if l.strip() == "//@as " + oname:
+                    k = j
+                    break
+            if k is None:
+                raise LostAnchor("//@use: %s has no block named %s" % (ounit, oname))
+            st = k
+            while not otext[st].strip().startswith("//@extract "):
+                st -= 1
+            en = k
+            while otext[en].strip() != "//@end":
+                en += 1
+            block = otext[st:en + 1]
+            # re-parse that block through the normal path, forcing the assumed (lenient) emission
+            lines[i:i + 1] = block[:1] + ["//@assumed " + ounit] + block[1:]
+            continue
         elif s.startswith("//@extract "):
             spec = s[len("//@extract "):]
             relfile, _, selector = spec.partition(" :: ")
             relfile, selector = relfile.strip(), selector.strip()
             i += 1
             opts = {"as": None, "ret": None, "pub": False, "attrs": False, "subs": [], "noauto": False,
-                    "sigonly": False, "external_body": False, "spec": [], "loops": {}, "afterloops": {}, "anchors": [], "hoist": [], "replace_body": False}
+                    "sigonly": False, "external_body": False, "spec": [], "loops": {}, "afterloops": {}, "anchors": [], "hoist": [], "replace_body": False, "assumed_from": None}
             while i < len(lines):
                 t = lines[i].strip()
                 if t == "//@end":
@@ -260,6 +283,8 @@ def weave(unit_path, repo, verif_root, vacuity=False):
                     opts["sigonly"] = True
                 elif d == "external_body":
                     opts["external_body"] = True
+                elif d.startswith("assumed "):
+                    opts["assumed_from"] = d[8:].strip()
                 elif d.startswith("hoist "):
                     opts["hoist"].append(d[6:].strip())
                 elif d.startswith("sub ") or d.startswith("resub "):
@@ -305,7 +330,7 @@ def weave(unit_path, repo, verif_root, vacuity=False):
     return "".join(out), linemap, log, extracted
 
 
-def _do_extract(repo, relfile, selector, opts, sources, log, extracted):
+def _do_extract_impl(repo, relfile, selector, opts, sources, log, extracted, lenient=False):
     path = os.path.join(repo, relfile)
     if relfile not in sources:
         try:
@@ -346,6 +371,8 @@ def _do_extract(repo, relfile, selector, opts, sources, log, extracted):
         b0 = mt_.find("{")
         cands = [c for c in find_items(text, mt_, kind, hname, b0 + 1, len(text) - 1)]
         if len(cands) != 1:
+            if lenient:
+                continue
             raise LostAnchor("%s %s: hoist %s matched %d nested items" % (where, name, h, len(cands)))
         hs, he = cands[0]
         hs = _attr_start(text, mt_, hs, b0 + 1)
@@ -354,14 +381,14 @@ def _do_extract(repo, relfile, selector, opts, sources, log, extracted):
     for is_re, rule, count, frm, to in opts["subs"]:
         if is_re:
             found = len(re.findall(frm, text))
-            if not _count_ok(found, count):
+            if not _count_ok(found, count) and not lenient:
                 raise LostAnchor("%s %s: rule %s /%s/ matched %d times, declared %s" % (where, name, rule, frm, found, count))
             for mt in re.finditer(frm, text):
                 log.append({"rule": rule, "where": where, "fn": name, "before": mt.group(0), "after": mt.expand(to)})
             text = re.sub(frm, to, text)
         else:
             found = text.count(frm)
-            if not _count_ok(found, count):
+            if not _count_ok(found, count) and not lenient:
                 raise LostAnchor("%s %s: rule %s \"%s\" matched %d times, declared %s" % (where, name, rule, frm, found, count))
             for _ in range(found):
                 log.append({"rule": rule, "where": where, "fn": name, "before": frm, "after": to})
@@ -396,6 +423,15 @@ def _do_extract(repo, relfile, selector, opts, sources, log, extracted):
         chunks.append(Chunk("\n".join(opts["spec"]), origin("spec")))
     if opts["sigonly"]:
         chunks.append(Chunk(";", origin("signature")))
+        return chunks
+    if lenient:
+        # degraded mode: an anchor / loop / rewrite of this function no longer applies (the body was
+        # rewritten). Only the signature and contract are emitted, as an ASSUMED (external_body) function, so
+        # that the rest of the unit can still be checked; the function itself is reported as undecided and
+        # handed to its fallback harnesses.
+        chunks.insert(0, Chunk("#[verifier::external_body]", origin("attr")))
+        chunks.append(Chunk("{ unimplemented!() }", origin("body")))
+        rec["external_body"] = True
         return chunks
     if opts.get("replace_body"):
         # R8: the body is outside the verifier's reach; only its contract is assumed
@@ -514,3 +550,24 @@ def _assemble_body(buf):
     if cur_lines:
         res.append(Chunk("\n".join(cur_lines), cur_org))
     return res
+
+
+def _do_extract(repo, relfile, selector, opts, sources, log, extracted):
+    n_log, n_ext = len(log), len(extracted)
+    if opts.get("assumed_from"):
+        chunks = _do_extract_impl(repo, relfile, selector, opts, sources, log, extracted, lenient=True)
+        extracted[-1]["assumed_from_unit"] = opts["assumed_from"]
+        return chunks
+    try:
+        return _do_extract_impl(repo, relfile, selector, opts, sources, log, extracted)
+    except LostAnchor as e:
+        if not opts["spec"] or opts.get("sigonly"):
+            raise
+        del log[n_log:]
+        del extracted[n_ext:]
+        try:
+            chunks = _do_extract_impl(repo, relfile, selector, opts, sources, log, extracted, lenient=True)
+        except LostAnchor:
+            raise e
+        extracted[-1]["degraded"] = str(e)
+        return chunks
